@@ -374,6 +374,7 @@ struct Rules {
     vec_for: bool,
     hoist_fn: bool,
     exprs: Vec<(String, String)>,       // normalised token string of an expression -> replacement text (R17)
+    field_calls: Vec<String>,           // field names whose read access `X.f` becomes the accessor call `X.f()` (R19: the struct is opaque in the unit)
     drop_cfg: Vec<String>,              // statements carrying #[cfg(feature = "X")] for a listed X are dropped (R18)
     after_method: Vec<(String, String)>, // method name -> ghost template ($idx = last index expression of the receiver, $recv = receiver)       // normalised callee path -> replacement of the whole call expression
     pub_super: bool,
@@ -710,6 +711,18 @@ impl<'a, 'ast> Visit<'ast> for FnScan<'a> {
             }
         }
         syn::visit::visit_expr(self, e);
+    }
+
+    fn visit_expr_field(&mut self, f: &'ast syn::ExprField) {
+        // R19: `X.f` -> `X.f()` for the listed field names (read access through an assumed accessor of an opaque shim type)
+        if let syn::Member::Named(id) = &f.member {
+            if self.rules.field_calls.iter().any(|n| id == n) {
+                let e = id.span().byte_range().end;
+                self.seq += 1;
+                self.edits.push(Edit { pos: e, end: e, text: "()".to_string(), rule: "R19:field-to-accessor".into(), kept: vec![], oline: 0, seq: self.seq });
+            }
+        }
+        syn::visit::visit_expr_field(self, f);
     }
 
     fn visit_expr_macro(&mut self, m: &'ast syn::ExprMacro) {
@@ -1079,6 +1092,7 @@ fn main() {
                     "range-for" | "rev-range" => rules.rev_range = rest != "off",
                     "vec-for" => rules.vec_for = rest != "off",
                     "drop-cfg-stmt" => rules.drop_cfg = rest.split_whitespace().map(|s| s.to_string()).collect(),
+                    "field-call" => rules.field_calls = rest.split_whitespace().map(|s| s.to_string()).collect(),
                     "expr" => {
                         // @@rule expr «tokens of the expression» => replacement
                         let a0 = rest.find('«');
